@@ -110,6 +110,63 @@ let c15 op a =
   | _ -> "(unknown-op " ^ op ^ ")"
 
 
+
+(* ---------- types and environments ---------- *)
+let name_of_hex h : n list = unhex h
+let prim_of = function
+  | "null" -> PNull | "bool" -> PBool | "nat" -> PNat | "int" -> PInt | "nat8" -> PNat8 | "nat16" -> PNat16
+  | "nat32" -> PNat32 | "nat64" -> PNat64 | "int8" -> PInt8 | "int16" -> PInt16 | "int32" -> PInt32 | "int64" -> PInt64
+  | "float32" -> PFloat32 | "float64" -> PFloat64 | "text" -> PText | "reserved" -> PReserved | "empty" -> PEmpty
+  | "principal" -> PPrincipal | s -> failwith ("prim " ^ s)
+let rec ty_of (s : sx) : ty =
+  match s with
+  | A "future" -> TFuture
+  | A a -> TPrim (prim_of a)
+  | L _ ->
+    let fields l = List.map (fun f -> match f with L [i; t] -> (n_of_string (atom i), ty_of t) | _ -> failwith "field") l in
+    (match head s, args s with
+     | "var", [x] -> TVar (name_of_hex (atom x))
+     | "opt", [t] -> TOpt (ty_of t)
+     | "vec", [t] -> TVec (ty_of t)
+     | "rec", fs -> TRec (fields fs)
+     | "variant", fs -> TVariant (fields fs)
+     | "func", [a; r; m] -> TFunc (List.map ty_of (items a), List.map ty_of (items r), List.map (fun x -> n_of_string (atom x)) (items m))
+     | "serv", ms -> TServ (List.map (fun f -> match f with L [i; t] -> (name_of_hex (atom i), ty_of t) | _ -> failwith "meth") ms)
+     | "class", [a; t] -> TClass (List.map ty_of (items a), ty_of t)
+     | h, _ -> failwith ("type head " ^ h))
+let env_of (s : string) : (n list * ty) list =
+  List.map (fun d -> match d with L [x; t] -> (name_of_hex (atom x), ty_of t) | _ -> failwith "env") (items (parse_sx s))
+let rec rename_ty (f : n list -> n list) (t : ty) : ty =
+  match t with
+  | TPrim _ | TFuture -> t
+  | TVar x -> TVar (f x)
+  | TOpt t -> TOpt (rename_ty f t)
+  | TVec t -> TVec (rename_ty f t)
+  | TRec fs -> TRec (List.map (fun (i, t) -> (i, rename_ty f t)) fs)
+  | TVariant fs -> TVariant (List.map (fun (i, t) -> (i, rename_ty f t)) fs)
+  | TFunc (a, r, m) -> TFunc (List.map (rename_ty f) a, List.map (rename_ty f) r, m)
+  | TServ ms -> TServ (List.map (fun (i, t) -> (i, rename_ty f t)) ms)
+  | TClass (a, t) -> TClass (List.map (rename_ty f) a, rename_ty f t)
+
+(* ---------- C05 ---------- *)
+let c05 op a =
+  match op, a with
+  | ("c05.sub" | "c05.sub_warn" | "c05.checkall"), [e; x; y] -> b01 (sub_dec (env_of e) (ty_of (parse_sx x)) (ty_of (parse_sx y)))
+  | "c05.equal", [e; x; y] -> b01 (eq_dec (env_of e) (ty_of (parse_sx x)) (ty_of (parse_sx y)))
+  | ("c05.seq" | "c05.seq_equal" | "c05.seq_checkall"), [e; qs] ->
+      let env = env_of e in
+      String.concat "" (List.map (fun q -> match q with
+        | L [x; y] -> b01 ((if op = "c05.seq_equal" then eq_dec else sub_dec) env (ty_of x) (ty_of y))
+        | _ -> failwith "query") (items (parse_sx qs)))
+  | ("c05.compat" | "c05.compat_report" | "c05.service_equal"), [e1; a1; e2; a2] ->
+      (* merge_type: the second environment's names are made disjoint from the first one's *)
+      let f x = x @ [n_of_int 47; n_of_int 49] in
+      let env2 = List.map (fun (x, t) -> (f x, rename_ty f t)) (env_of e2) in
+      let env = env_of e1 @ env2 in
+      let t1 = ty_of (parse_sx a1) and t2 = rename_ty f (ty_of (parse_sx a2)) in
+      b01 ((if op = "c05.service_equal" then eq_dec else sub_dec) env t1 t2)
+  | _ -> "(unknown-op " ^ op ^ ")"
+
 (* ---------- C09 ---------- *)
 let z_of_string s = cz_of_z (ZA.of_string s)
 let string_of_cz x = ZA.to_string (z_of_cz x)
@@ -205,6 +262,7 @@ let dispatch (op : string) (a : string list) : string =
   let base = if String.length op > 2 && String.sub op 0 2 = "m." then String.sub op 2 (String.length op - 2) else op in
   let prop = try String.sub base 0 (String.index base '.') with Not_found -> base in
   match prop with
+  | "c05" -> c05 op a
   | "c09" -> c09 op a
   | "c15" -> c15 op a
   | "c16" -> c16 op a
